@@ -379,8 +379,11 @@ theorem emitted_stub_jump_decodes (env : Env) (dx : BitVec 64) :
     a loop, are listed in `Gen.A64Args.untranslated`).  Every operation that can panic in Go (index, division by a variable, shift by a
     signed variable) is translated to an explicit test with a `panic` outcome; constructs outside the fragment make a case
     `unknown`.  `Gen.A64Args.badKinds` lists the kinds with a `panic` or `unknown` leaf; the generated lemma `decodeArgOut_ok` covers
-    all others, for all words.  Trusted here: the translator (validated on every run against the real `decodeArg` and the real
-    predicates, see checks/C17.py).  NOT covered: termination of the one loop in `handle_bitmasks` (`Gen.A64Args.loops`), the value
+    all others, for all words.  NOTE (review B1): the kernel does not check the translator's judgement of what can panic — a case
+    without such an operation is emitted with the two-valued result type `Out2`, so `decodeArgOut_ok` is true by typing.  The content
+    of `argdec_total` is therefore: the REGENERATED translation has no panic/unknown leaf in any kind a table row uses.  The translator
+    is validated on every run against the real `decodeArg` and the real predicates, and statically against the same translation of the
+    reference decoder (checks/C17.py `source_diff`).  NOT covered: termination of the one loop in `handle_bitmasks` (`Gen.A64Args.loops`), the value
     of the argument, and `Inst.String()`. -/
 
 /-- for EVERY table row, every argument kind it uses and EVERY one of the 2^32 words, argument decoding returns an argument or
